@@ -65,6 +65,10 @@ def uv_lookup_rules(cx):
         okt = interior_handled = False
         if e is not None:
             bc = e[1]['bc']
+            if bc[0] != 'phi':
+                # `loc.barycentric_coordinates().or_else(|| interior_barycentric(..))?` : the same two alternatives behind a combinator
+                from vpa import inline as IN
+                bc = simplify(IN.lift_phi(IN.expand(cx.facts, bc, keep=('interior_barycentric',))))
             alts = list(bc[1:]) if bc[0] == 'phi' else [bc]
             loc = [a_ for a_ in alts if match(f'(unwrap (call TrianglePointLocation::barycentric_coordinates (field 1 (field 1 {P}))))', a_) is not None]
             inter = [a_ for a_ in alts if match(f'(unwrap (call *interior_barycentric (field a {TRI}) (field b {TRI}) (field c {TRI}) (param point)))', a_) is not None]
